@@ -148,6 +148,19 @@ Queries(es) == [files |-> FilesRef(es), prefixed |-> PrefixedRef(es),
                 pkgname |-> FirstOfKind(es, "Name"), display |-> FirstOfKind(es, "Display"),
                 preserve |-> IF \E i \in 1..Len(es) : es[i][1] = "PkgOpt" THEN "T" ELSE "F"]
 
+\* The same record through the implemented one-pass views (linear).  The declarative definitions
+\* above are quadratic and worse in the number of entries (2 000 entries: minutes); MC_Plist checks
+\* View = ...Ref on every entry sequence of its bounded domain and Tr_Plist on every recorded list
+\* of at most QueriesRefMax entries, so longer lists are judged with QueriesByView.
+QueriesRefMax == 150
+QueriesByView(es) == [Queries(<<>>) EXCEPT !.files = View(es, "files"), !.prefixed = View(es, "prefixed"),
+                                           !.install = View(es, "install"), !.uninstall = View(es, "uninstall"),
+                                           !.depends = OfKind(es, "PkgDep"), !.build_depends = OfKind(es, "BldDep"),
+                                           !.conflicts = OfKind(es, "PkgCfl"), !.pkgdirs = OfKind(es, "PkgDir"),
+                                           !.pkgrmdirs = OfKind(es, "DirRm"), !.pkgname = FirstOfKind(es, "Name"),
+                                           !.display = FirstOfKind(es, "Display"),
+                                           !.preserve = IF \E i \in 1..Len(es) : es[i][1] = "PkgOpt" THEN "T" ELSE "F"]
+
 \* an entry back to a line (for building inputs from entry sequences)
 KindCmd(k) == CASE k = "Cwd" -> CmdTable[1].name [] k = "Exec" -> CmdTable[4].name [] k = "UnExec" -> CmdTable[5].name
                 [] k = "PkgOpt" -> CmdTable[6].name [] k = "Mode" -> CmdTable[7].name [] k = "Owner" -> CmdTable[8].name
